@@ -215,10 +215,59 @@ func TestVerifC17(t *testing.T) {
 		im.close()
 		os.RemoveAll(dir)
 	}
+	// "content lives under the CONFIGURED roots": a database that was used with two roots is reopened
+	// with the first one only; everything is deleted and collected (the clean-up hands the emptied
+	// directories of both roots back to the directory repository); 60 further writes must all land
+	// under the one configured root.
+	{
+		dir := filepath.Join(out, "c17-dropped-root")
+		os.RemoveAll(dir)
+		im := newSeqImpl(dir, 2)
+		if err := im.open(); err != nil {
+			t.Fatal(err)
+		}
+		for i := 0; i < 60; i++ {
+			if err := im.d.Set(im.ctx, fmt.Sprintf("both-%d", i), []byte{1}); err != nil {
+				t.Fatalf("set: %v", err)
+			}
+		}
+		im.close()
+		all := append([]string(nil), im.roots...)
+		im.roots = all[:1]
+		im.cfg.Storage.RootDirs = []string{all[0]}
+		if err := im.open(); err != nil {
+			t.Fatal(err)
+		}
+		for i := 0; i < 60; i++ {
+			im.d.Delete(im.ctx, fmt.Sprintf("both-%d", i))
+		}
+		im.d.container.Cleaner().DeleteOld(im.ctx)
+		drainPool()
+		count := func(root string) (n int) {
+			filepath.Walk(root, func(_ string, fi os.FileInfo, err error) error {
+				if err == nil && !fi.IsDir() {
+					n++
+				}
+				return nil
+			})
+			return n
+		}
+		before := count(all[1])
+		for i := 0; i < 60; i++ {
+			if err := im.d.Set(im.ctx, fmt.Sprintf("one-%d", i), []byte{2}); err != nil {
+				t.Fatalf("set: %v", err)
+			}
+		}
+		if after := count(all[1]); after > before {
+			reuseBad = append(reuseBad, fmt.Sprintf("dropped root: reopened with the first of two roots only, deleted and collected everything, wrote 60 files: %d of them were stored under the root that is no longer configured", after-before))
+		}
+		im.close()
+		os.RemoveAll(dir)
+	}
 	ops.Flush()
 	impl.Flush()
 	opsF.Close()
 	implF.Close()
 	rb, _ := json.Marshal(reuseBad)
-	os.WriteFile(filepath.Join(out, "c17.stats.json"), []byte(fmt.Sprintf(`{"lines": %d, "histories": %d, "new_dirs": %d, "max_entries_seen": %d, "reuse_scenarios": 3, "reuse_bad": %s}`, lines, nhist, rotations, maxSeen, rb)), 0o644)
+	os.WriteFile(filepath.Join(out, "c17.stats.json"), []byte(fmt.Sprintf(`{"lines": %d, "histories": %d, "new_dirs": %d, "max_entries_seen": %d, "reuse_scenarios": 4, "reuse_bad": %s}`, lines, nhist, rotations, maxSeen, rb)), 0o644)
 }
